@@ -423,7 +423,14 @@ class Interp:
             if hook is not None and hook(self, s, fr, it):
                 return
             return self._for_symlist_havoc(s, fr, it)
-        items = self.iterate(it, s)
+        if isinstance(it, PList) and not it.is_concrete():
+            # guarded list: an item takes part in the loop iff its guard holds (forked per item)
+            items = []
+            for g, v in it.items:
+                if g is True or self.ctx.branch(g):
+                    items.append(v)
+        else:
+            items = self.iterate(it, s)
         broke = False
         for v in items:
             self.assign(s.target, v, fr)
